@@ -252,6 +252,8 @@ def check_model(ctx, recs):
         ctx.stat("model_affine_samples")
         if "own_rank_loop" in case["tags"]:
             ctx.stat("model_affine_own_rank_loop")
+        if (r["yaml"].get("mapping") or {}).get("partitioning"):
+            ctx.stat("model_affine_partitioned")
         ok_h = a["hyps_ok"]
         if ok_h:
             ctx.stat("model_hypotheses_hold")
